@@ -572,7 +572,15 @@ pub fn determinism(seed: u64, n: u64) -> (u64, u64) {
 // C10 (i) through the real command loop: several `position` commands in one session
 
 pub fn run_c10_session(seed: u64, run: u64) -> Acc {
-    let mut rng = Rng::new(crate::rng::mix(seed, "C10-session", run));
+    run_probe_session(seed, run, "C10")
+}
+
+/// sessions of several `position` commands (and zero-slice `go`s) through the real command
+/// loop; the H4 probes show the board and the repetition record the I/O thread holds.
+/// prop = "C10": record vs multiset model; "C04": probed board vs referee position;
+/// "C05": probed key vs from-scratch key (after position and after go).
+pub fn run_probe_session(seed: u64, run: u64, prop: &str) -> Acc {
+    let mut rng = Rng::new(crate::rng::mix(seed, &format!("{}-session", prop), run));
     let mut acc = Acc::new();
     let z = crate::zobrist::ZobristHasher::create_zobrist_hasher();
     let mut sc = Scenario::new();
@@ -608,12 +616,55 @@ pub fn run_c10_session(seed: u64, run: u64) -> Acc {
         games.push(g);
     }
     sc.line("quit");
-    let res = sa::run(&sc);
+    judge_probe_session(&sc, &games, prop, &mut acc, run);
+    acc
+}
+
+/// re-execute a probe-session scenario (replay): the games are read back from the script
+pub fn replay_probe_session(scv: &serde_json::Value, prop: &str) -> Acc {
+    let mut acc = Acc::new();
+    let sc = match Scenario::from_json(scv) {
+        Some(s) => s,
+        None => return acc,
+    };
+    let mut games = vec![];
+    for st in &sc.steps {
+        if let Step::Line { text, .. } = st {
+            let toks: Vec<String> = sa::tokens(text).iter().map(|x| x.to_string()).collect();
+            if toks.first().map(|t| t == "position").unwrap_or(false) {
+                if let Some((start, moves)) = sa::model_position(&toks) {
+                    games.push(workload::Game { start, moves, source: "replay" });
+                }
+            }
+        }
+    }
+    judge_probe_session(&sc, &games, prop, &mut acc, 0);
+    acc
+}
+
+fn judge_probe_session(sc: &Scenario, games: &[workload::Game], prop: &str, acc: &mut Acc, run: u64) {
+    let z = crate::zobrist::ZobristHasher::create_zobrist_hasher();
+    let res = sa::run(sc);
     acc.virtual_ns += res.virtual_ns;
     // the i-th "position" probe belongs to the i-th game
     let probes: Vec<&crate::verif_seam::kernel::ProbeSnap> = res.probes.iter().filter(|p| p.tag == "position").collect();
     for (g, snap) in games.iter().zip(probes.iter()) {
         acc.evals += 1;
+        if prop == "C04" || prop == "C05" {
+            let fin = g.final_pos();
+            acc.nontrivial.insert(fnv(fin.canon_hash(), g.moves_text().join(" ").as_bytes()));
+            let d = crate::bridge::diff_board(&snap.board, &fin);
+            if prop == "C04" {
+                if let Some(d) = d {
+                    acc.violate(Violation { prop: "C04".into(), sig: "C04/session/position-probe".into(), detail: format!("after {:?} the engine holds a wrong position: {}", sa::position_line(&g.start, &g.moves, &mut Rng::new(0)), d), scenario: sc.to_json(), run });
+                    break;
+                }
+            } else if d.is_none() && snap.board.zobrist_key != crate::bridge::model_key(&fin, &z) {
+                acc.violate(Violation { prop: "C05".into(), sig: "C05/session/key-mismatch/position".into(), detail: format!("after {:?} the key is {:016x}, from scratch {:016x}", sa::position_line(&g.start, &g.moves, &mut Rng::new(0)), snap.board.zobrist_key, crate::bridge::model_key(&fin, &z)), scenario: sc.to_json(), run });
+                break;
+            }
+            continue;
+        }
         let mut model: std::collections::HashMap<u64, u32> = std::collections::HashMap::new();
         let mut maxc = 0;
         for p in g.positions() {
@@ -638,10 +689,19 @@ pub fn run_c10_session(seed: u64, run: u64) -> Acc {
             break;
         }
     }
-    if probes.len() < games.len() && !matches!(res.end, SimEnd::Exit(_)) {
-        acc.count("c10_session_cut_short");
+    if prop == "C05" {
+        for snap in res.probes.iter().filter(|p| p.tag == "go") {
+            acc.evals += 1;
+            let held = crate::bridge::to_pos(&snap.board);
+            if snap.board.zobrist_key != crate::bridge::model_key(&held, &z) {
+                acc.violate(Violation { prop: "C05".into(), sig: "C05/session/key-mismatch/go".into(), detail: format!("the board kept after go ({}) has key {:016x}, from scratch {:016x}", held.canon(), snap.board.zobrist_key, crate::bridge::model_key(&held, &z)), scenario: sc.to_json(), run });
+                break;
+            }
+        }
     }
-    acc
+    if probes.len() < games.len() && !matches!(res.end, SimEnd::Exit(_)) {
+        acc.count("session_cut_short");
+    }
 }
 
 /// C18 stream view: fault-free timed sessions, several position+go pairs in a row, GUI latency
